@@ -275,6 +275,18 @@ def _exclusion_status(ctx, v: FuncView, a: str, b: str, depth: int = 0):
         worst = worst or st
     if fw:
         return ("delegated-unknown", fw[0][0], norm(fw[0][0]))
+    # the exclusion test is written as a deferred predicate (a lambda / local function in a table of checks that a helper runs)
+    for n in ast.walk(v.fi.node):
+        if isinstance(n, (ast.Lambda, ast.FunctionDef)) and n is not v.fi.node:
+            names = {x.id for x in ast.walk(n) if isinstance(x, ast.Name)}
+            if {a, b} <= names:
+                return ("delegated-unknown", n, norm(n)[:80])
+    # both filters are handed to something that was not resolved (a callable picked from a table, a parameter, a closure)
+    for n in walk_no_nested(v.fi.node):
+        if isinstance(n, ast.Call) and not ctx.callees(v.fi, n):
+            got = {x.id for arg in list(n.args) + [k.value for k in n.keywords] for x in ast.walk(arg) if isinstance(x, ast.Name) and x.id in (a, b)}
+            if got == {a, b} and not (isinstance(n.func, ast.Name) and n.func.id in ("print", "len", "isinstance", "str", "repr", "format")):
+                return ("delegated-unknown", n, norm(n)[:80])
     # nothing receives both filters: did something receive them in a form we cannot follow (**kwargs, a dict)?
     for n in walk_no_nested(v.fi.node):
         if isinstance(n, ast.Call) and (any(kw.arg is None for kw in n.keywords) or any(isinstance(x, ast.Starred) for x in n.args)):
